@@ -3,6 +3,7 @@
 package main
 
 import (
+	"github.com/onflow/crypto/hash"
 	"sync"
 	"bytes"
 	"fmt"
@@ -355,6 +356,68 @@ func genC12(c *Ctx) {
 			return "ok " + encs[0]
 		})
 		c.Case("pk-concurrent-first-use", "pk.of 0x"+k.Text(16), ans)
+	}
+	// DECODED private keys kept while other keys are decoded (some refused), generated and used: the scalar a key
+	// encodes to and the public key it gives are those of the bytes it was decoded from, whatever came after
+	for _, cv := range ecCurves {
+		type kept struct {
+			d  *big.Int
+			sk crypto.PrivateKey
+		}
+		var keys []kept
+		ff := make([]byte, 32)
+		for i := range ff {
+			ff[i] = 0xff
+		}
+		for i := 0; i < 6; i++ {
+			d := c.randMod(cv.n)
+			sk, err := crypto.DecodePrivateKey(cv.algo, be(d, 32))
+			if err != nil {
+				continue
+			}
+			keys = append(keys, kept{d, sk})
+			switch i % 3 { // something else uses the decoder, the generator, the signer in between
+			case 0:
+				_, _ = crypto.DecodePrivateKey(cv.algo, ff)
+			case 1:
+				_, _ = crypto.GeneratePrivateKey(cv.algo, c.bytes(48))
+			case 2:
+				_, _ = sk.Sign([]byte("in between"), hash.NewSHA3_256())
+			}
+		}
+		for _, k := range keys {
+			k := k
+			c.Case("decoded-key-history/"+cv.name, fmt.Sprintf("ecdsa pkof %s %s", cv.name, hx(be(k.d, 32))), guard(func() string {
+				if hx(k.sk.Encode()) != hx(be(k.d, 32)) {
+					return "private-key-changed-later: decoded from " + hx(be(k.d, 32)) + ", now encodes to " + hx(k.sk.Encode())
+				}
+				pk := k.sk.PublicKey()
+				return "ok " + hx(pk.Encode()) + " " + hx(pk.EncodeCompressed())
+			}))
+		}
+	}
+	{
+		var ks []*big.Int
+		var sks []crypto.PrivateKey
+		for i := 0; i < 6; i++ {
+			k := c.randScalar()
+			ks = append(ks, k)
+			sks = append(sks, skFromInt(k))
+			if i%2 == 0 {
+				_, _ = crypto.DecodePrivateKey(crypto.BLSBLS12381, make([]byte, 32))
+			} else {
+				_, _ = crypto.GeneratePrivateKey(crypto.BLSBLS12381, c.bytes(48))
+			}
+		}
+		for i := range ks {
+			i := i
+			c.Case("decoded-key-history/bls", "pk.of 0x"+ks[i].Text(16), guard(func() string {
+				if hx(sks[i].Encode()) != hx(be(ks[i], 32)) {
+					return "private-key-changed-later"
+				}
+				return "ok " + hx(sks[i].PublicKey().Encode())
+			}))
+		}
 	}
 	// the constants of the library's own source as private keys - decoded, and obtained as the aggregate of two keys:
 	// the public key must be the scalar times the generator for these as for any other (a shortcut that compares the
